@@ -42,9 +42,11 @@ func (w *World) CopyTo(src int, flushEvery int) {
 			w.Fail("fault", "data-with-error-in-CopyTo", "%s returned a store alongside the error", label)
 		}
 		w.logf("%s=FAULT(dst)", label)
-		return
-	}
-	if w.faulted(label, err, true, err != nil && res != nil) {
+		if err != nil || res == nil {
+			return
+		}
+		// success was reported: the copy is judged like any other
+	} else if w.faulted(label, err, true, err != nil && res != nil) {
 		return
 	}
 	w.logf("%s=%s", label, errs(err))
